@@ -79,6 +79,12 @@ class InputIter:
         self.n = call["n"]; self.iter_fail = call.get("iter_fail")
 
     def __iter__(self):
+        if self.iter_fail == -1:
+            # the input cannot even be iterated over: iter(iterable) raises inside Parallel.__call__
+            self.iter_fail = None
+            self.w.ev("iter_raise", self.c, -1)
+            self.w.iter_raised.setdefault(self.c, []).append(-1)
+            raise IterErr(self.c, -1)
         return self
 
     def __next__(self):
@@ -353,8 +359,9 @@ def resolve_pre_dispatch(pd, n_jobs):
     if pd == "all":
         return None
     if isinstance(pd, str):
-        return int(eval(pd.replace("n_jobs", str(n_jobs)), {"__builtins__": {}}, {}))
-    return int(pd)
+        # an expression that rounds down to 0 ('0.4*n_jobs' with 2 jobs) still has to start the run: one batch
+        return max(int(eval(pd.replace("n_jobs", str(n_jobs)), {"__builtins__": {}}, {})), 1)
+    return max(int(pd), 1)
 
 
 def outcome_of_exception(e):
@@ -378,6 +385,8 @@ def run_parallel_case(case, consumer=None, setup=None):
                    keep_log=case.get("keep_log", 0))
     warnings.simplefilter("ignore")
     import joblib.parallel as jp
+    if case.get("verbose"):
+        sys.stdout = sys.stderr = open(os.devnull, "w")
     install_seams(w, case)
     if setup:
         setup(w, s)
@@ -503,7 +512,7 @@ def small_trace(w, limit=40):
 # -----------------------------------------------------------------------------
 # configuration generator shared by C01/C04/C09/C16
 
-PRE_DISPATCH = ["all", 1, 2, 3, 7, "n_jobs", "2*n_jobs", "1.5*n_jobs", "3*n_jobs-1"]
+PRE_DISPATCH = ["all", 1, 2, 3, 7, "n_jobs", "2*n_jobs", "1.5*n_jobs", "3*n_jobs-1", "0.4*n_jobs"]
 DURS = [0.0, 0.0, 0.001, 0.05, 0.3, 3.0]
 
 
@@ -524,6 +533,8 @@ def gen_config(rng, flavours, return_as=("list",), n_max=40):
         ra = "list"
     case = {"flavour": fl, "n_jobs": n_jobs, "cpus": cpus, "batch_size": bs, "pre_dispatch": pd,
             "return_as": ra, "managed": rng.random() < 0.5, "timeout": None}
+    if rng.random() < 0.15:
+        case["verbose"] = rng.choice([1, 5, 11, 60])      # progress messages (written to a discarded stream)
     if fl == "Gm":
         case["cb_threads"] = rng.choice([2, 3])
     if fl == "S":
